@@ -12,7 +12,7 @@ def _c16_case(c):
 
 
 # ---------- in-Coq re-evaluation of a sample of correspondence cases (thorough tier) ----------
-_VM_PRELUDE = """From Oras Require Import Base.Prelude Model.Scopes Model.Challenge Model.AuthClient Model.Once Model.CacheSet.
+_VM_PRELUDE = """From Oras Require Import Base.Prelude Model.Scopes Model.Challenge Model.AuthClient Model.Once Model.CacheSet Model.Redirect.
 Definition chproj (h : str) :=
   match parse_challenge h with
   | ChUnjudged => None
@@ -90,6 +90,16 @@ def _vm_goal(case, out):
         o = out.split(" ")
         sch = {"unknown": "SchUnknown", "basic": "SchBasic", "bearer": "SchBearer"}[o[1]]
         return "chproj %s = Some (%s, %s%%nat, %s, %s, %s)" % (h, sch, o[2], _cstr(o[3]), _cstr(o[4]), _cstr(o[5]))
+    if k == "RD":
+        a, c, st = t.next(), t.next(), t.next()
+        flags = t.l[t.i:]
+        o = out.split(" ")
+        goals = []
+        if "noauth" not in flags:
+            goals.append("keeps_authorization %s %s = %s" % (_cstr(a), _cstr(c), "true" if o[0] == "AUTH-KEPT" else "false"))
+        if "nobody" not in flags:
+            goals.append("keeps_body %s = %s" % (st, "true" if o[1] == "BODY-KEPT" else "false"))
+        return " /\\ ".join(goals) if goals else None
     if k == "O":
         n = int(t.next())
         evs = []
@@ -179,7 +189,7 @@ def _c16_vm_sample(d, tier, coq, build, want=300):
         for l in f:
             i, _, o = l.rstrip("\n").partition(" ")
             outs[i] = o
-    quota = {"S": 80, "A": 40, "G": 30, "C": 80, "H": 30, "O": 25, "KS": 25}
+    quota = {"S": 80, "A": 40, "G": 30, "C": 80, "H": 30, "O": 25, "KS": 25, "RD": 30}
     total = collections.Counter()
     with open(os.path.join(d, "cases.txt")) as f:
         for l in f:
@@ -221,7 +231,7 @@ def _c16_vm_sample(d, tier, coq, build, want=300):
 
 CONFIG = {
     "properties_file": "Properties/C16.v",
-    "proof_files": ["Base/Prelude.v", "Proofs/Scopes.v", "Proofs/ScopesIdem.v", "Proofs/AuthClient.v", "Proofs/AuthHistory.v", "Proofs/Once.v", "Proofs/CacheSet.v", "Proofs/OnceSlot.v", "Proofs/AuthConc.v", "Proofs/Redirect.v"],
+    "proof_files": ["Base/Prelude.v", "Proofs/Scopes.v", "Proofs/ScopesIdem.v", "Proofs/AuthClient.v", "Proofs/AuthHistory.v", "Proofs/Once.v", "Proofs/CacheSet.v", "Proofs/OnceSlot.v", "Proofs/AuthConc.v", "Proofs/Redirect.v", "Proofs/AuthOrder.v"],
     "model_files": ["Generated/GC16.v", "Model/Scopes.v", "Model/Challenge.v", "Model/AuthClient.v", "Model/Once.v", "Model/CacheSet.v", "Model/OnceSlot.v", "Model/AuthConc.v", "Model/Redirect.v"],
     "extract": "XC16.v",
     "ml_main": "c16_main.ml",
